@@ -34,7 +34,7 @@ def main():
     if cmd == 'import':
         cid = sys.argv[2]
         name = sys.argv[3] if len(sys.argv) > 3 else cid.lower() + '-a'
-        src = {'b': '/tmp/seedb/%s/out', 'c': '/tmp/seedc/%s/out', 'd': '/tmp/seedd/%s/out', 'e': '/tmp/seede/%s/out', 'f': '/tmp/seedf/%s/out', 'g': '/tmp/seedg/%s/out', 'h': '/tmp/seedh/%s/out', 'i': '/tmp/seedi/%s/out', 'j': '/tmp/seedj/%s/out', 'k': '/tmp/seedk/%s/out'}.get(name[-1], '/tmp/seed/%s/out') % cid
+        src = {'b': '/tmp/seedb/%s/out', 'c': '/tmp/seedc/%s/out', 'd': '/tmp/seedd/%s/out', 'e': '/tmp/seede/%s/out', 'f': '/tmp/seedf/%s/out', 'g': '/tmp/seedg/%s/out', 'h': '/tmp/seedh/%s/out', 'i': '/tmp/seedi/%s/out', 'j': '/tmp/seedj/%s/out', 'k': '/tmp/seedk/%s/out', 'l': '/tmp/seedl/%s/out'}.get(name[-1], '/tmp/seed/%s/out') % cid
         dst = os.path.join(SEEDED, name)
         os.makedirs(dst, exist_ok=True)
         for f in ('patch.diff', 'demo.py', 'meta.json'):
